@@ -23,14 +23,19 @@
 (* and checks the hand-over contracts of the passes (Static).              *)
 (***************************************************************************)
 EXTENDS Ssb, TLC, Json, IOUtils
+\* Mode = "compiler": the four stages above.  Mode = "resolver": the FIRST step of the ExplorerScript decompiler, run the other way
+\* round - OpsLabelJumpToResolver turns the offsets of a binary's jumps into labels (D0 = its input, D1 = its output); the
+\* same machine, the same refinement, one pair.
+CONSTANT Mode
 Cases == JsonDeserialize(IOEnv.CASES_FILE)
 VARIABLES cid, pr, rt, a, b, ta, tb, cx, st
 vars == <<cid, pr, rt, a, b, ta, tb, cx, st>>
 
-Stage(c, i) == CASE i = 1 -> Cases[c].S0 [] i = 2 -> Cases[c].S1 [] i = 3 -> Cases[c].S2 [] OTHER -> Cases[c].S3
+Stage(c, i) == IF Mode = "resolver" THEN (IF i = 1 THEN Cases[c].D0 ELSE Cases[c].D1)
+               ELSE CASE i = 1 -> Cases[c].S0 [] i = 2 -> Cases[c].S1 [] i = 3 -> Cases[c].S2 [] OTHER -> Cases[c].S3
 A == Stage(cid, pr[1])
 B == Stage(cid, pr[2])
-Pairs == {<<1, 2>>, <<2, 3>>, <<3, 4>>, <<1, 4>>}
+Pairs == IF Mode = "resolver" THEN {<<1, 2>>} ELSE {<<1, 2>>, <<2, 3>>, <<3, 4>>, <<1, 4>>}
 
 AtEnd(R, p) == p[2] > Len(R[p[1]])
 El(R, p) == R[p[1]][p[2]]
@@ -75,7 +80,19 @@ Lookup(c, id) == LET hit == {i \in 1..Len(TableOf(c)) : TableOf(c)[i][1] = id} I
                  IF hit = {} THEN -1 ELSE TableOf(c)[CHOOSE i \in hit : TRUE][2]
 TableRight(c) == \A p \in AllPos(Stage(c, 3)) :
                    Stage(c, 3)[p[1]][p[2]].k = "label" => Lookup(c, Stage(c, 3)[p[1]][p[2]].lbl) = NextOpOff(Stage(c, 3), p)
+\* resolver: every label stands directly in front of the op it was made for, and nothing but labels was added
+RECURSIVE Strip(_)
+Strip(r) == IF r = <<>> THEN <<>> ELSE IF Head(r).k = "label" THEN Strip(Tail(r)) ELSE <<Head(r)>> \o Strip(Tail(r))
+ResolverStatic(c) ==
+  LET D0 == Cases[c].D0  D1 == Cases[c].D1 IN
+  IF Len(D0) # Len(D1) THEN "tables"
+  ELSE IF \E r \in 1..Len(D0) : Len(Strip(D1[r])) # Len(D0[r]) THEN "ops-added-or-lost"
+  ELSE IF \E r \in 1..Len(D0) : \E k \in 1..Len(D0[r]) :
+            LET x == D0[r][k]  y == Strip(D1[r])[k] IN x.off # y.off \/ x.op # y.op \/ x.ps # y.ps THEN "op-changed"
+  ELSE IF ~NoTrailingLabel(D1) THEN "trailing-label-after-strip"
+  ELSE "ok"
 Static(c) ==
+  IF Mode = "resolver" THEN ResolverStatic(c) ELSE
   IF Cases[c].S1in # Cases[c].S1 \/ Cases[c].S2in # Cases[c].S2 \/ Cases[c].final # Cases[c].S3 THEN "handover"
   ELSE IF ~NoTrailingLabel(Stage(c, 2)) THEN "trailing-label-after-strip"
   ELSE IF ~TableRight(c) THEN "label-table"
@@ -129,7 +146,7 @@ Sync == /\ st = "run" /\ ~IsTau(A, a) /\ ~IsTau(B, b)
 Next == TauA \/ TauB \/ Spin \/ Sync
 Spec == Init /\ [][Next]_vars
 
-Bad == {"mismatch", "crash", "diverge", "tables", "dangling-before",
+Bad == {"mismatch", "crash", "diverge", "tables", "dangling-before", "ops-added-or-lost", "op-changed",
         "handover", "trailing-label-after-strip", "label-table", "pseudo-op-in-result", "dangling-target-in-result"}
 Refines == st \notin Bad
 SafeOp(R, p) == IF p[1] \in 1..Len(R) /\ p[2] \in 1..Len(R[p[1]]) THEN El(R, p).op ELSE "-"
